@@ -149,8 +149,38 @@ func (r *fileRewriter) rewrite() {
 		case *ast.GoStmt:
 			r.needVrt = true
 			r.stats["go"]++
-			r.replace(x.Go, x.Call.Pos(), "vrt.Go(func() { ")
-			r.insert(x.End(), " })")
+			// Go evaluates the function value and the arguments in the calling goroutine, at the go
+			// statement: bind them to temporaries there (literals, nil/true/false and plain function
+			// names stay in place: a literal may be untyped, and rebinding it would fix its type).
+			var pre []string
+			if _, lit := x.Call.Fun.(*ast.FuncLit); !lit {
+				if sel, ok := x.Call.Fun.(*ast.SelectorExpr); ok && !isPkgName(r, sel.X) {
+					pre = append(pre, "_vgf := "+r.text(x.Call.Fun))
+					r.replace(x.Call.Fun.Pos(), x.Call.Fun.End(), "_vgf")
+				}
+			}
+			for i, a := range x.Call.Args {
+				switch t := a.(type) {
+				case *ast.BasicLit:
+					continue
+				case *ast.Ident:
+					if t.Name == "nil" || t.Name == "true" || t.Name == "false" {
+						continue
+					}
+				case *ast.FuncLit:
+					continue
+				}
+				pre = append(pre, fmt.Sprintf("_vga%d := %s", i, r.text(a)))
+				r.replace(a.Pos(), a.End(), fmt.Sprintf("_vga%d", i))
+			}
+			if len(pre) == 0 {
+				r.replace(x.Go, x.Call.Pos(), "vrt.Go(func() { ")
+				r.insert(x.End(), " })")
+			} else {
+				r.replace(x.Go, x.Call.Pos(), "{ "+strings.Join(pre, "; ")+"; vrt.Go(func() { ")
+				r.insert(x.End(), " }) }")
+			}
+			r.skipGoArgs(x)
 		case *ast.ChanType:
 			r.needVrt = true
 			r.stats["chantype"]++
@@ -275,6 +305,47 @@ func (r *fileRewriter) rewrite() {
 	})
 	if r.needVrt {
 		r.insert(r.file.Name.End(), "; import vrt "+q(shimRoot+"vrt"))
+	}
+}
+
+// isPkgName reports whether e is an identifier that names an imported package (pkg.Func is a plain
+// function name, not a method value).
+func isPkgName(r *fileRewriter, e ast.Expr) bool {
+	id, ok := e.(*ast.Ident)
+	if !ok {
+		return false
+	}
+	for _, im := range r.file.Imports {
+		name := ""
+		if im.Name != nil {
+			name = im.Name.Name
+		} else {
+			p := strings.Trim(im.Path.Value, `"`)
+			name = p[strings.LastIndex(p, "/")+1:]
+		}
+		if name == id.Name {
+			return id.Obj == nil
+		}
+	}
+	return false
+}
+
+// skipGoArgs: argument expressions that were moved into temporaries are rewritten as part of the
+// moved text only if they contain no construct of their own; a receive or a nested go inside an
+// argument of a go statement is not supported.
+func (r *fileRewriter) skipGoArgs(x *ast.GoStmt) {
+	for _, a := range x.Call.Args {
+		ast.Inspect(a, func(n ast.Node) bool {
+			switch y := n.(type) {
+			case *ast.UnaryExpr:
+				if y.Op == token.ARROW {
+					r.fail(y, "channel receive inside an argument of a go statement is not supported")
+				}
+			case *ast.FuncLit:
+				return false
+			}
+			return true
+		})
 	}
 }
 
